@@ -329,4 +329,248 @@ theorem bare4_accepts_iff (be : Backend) (txt : List Char) (h1 : txt.contains '/
       ⟨a, 32, (addrPart4_iff be txt h1 a).mpr hspec, rfl, Nat.le_refl _, rfl, (stored_full 4 fl a ha).symm⟩
     rw [this]
 
+
+/-! ### canonical decimal octets; a bare full address under both implicit_prefix values -/
+
+theorem octets_dec (ds : List Nat) (hne : ds ≠ []) (hlen : ds.length ≤ 4) (hd : ∀ d ∈ ds, d < 256) :
+    Octets (ds.map dec) (ds.map (fun d : Nat => (d : Int))) := by
+  refine ⟨?_, by simpa using hne, by simpa using hlen, ?_⟩
+  · clear hne hlen hd
+    induction ds with
+    | nil => rfl
+    | cons d t ih => rw [List.map_cons, List.mapM_cons, pyInt_dec, ih]; rfl
+  · intro n hn
+    obtain ⟨d, hdm, rfl⟩ := List.mem_map.mp hn
+    have := hd d hdm
+    omega
+
+/-- **Classful abbreviations, canonical octets, version None or 4, any flags**: `a`, `a.b`,
+    `a.b.c` (and `a.b.c.d`) under implicit_prefix=True get the class prefix of `a`; the same
+    texts with an explicit '/p' keep `p` whatever implicit_prefix says. -/
+theorem classful_canonical (be : Backend) (ds : List Nat) (hne : ds ≠ []) (hlen : ds.length ≤ 4) (hd : ∀ d ∈ ds, d < 256)
+    (pver : Option Nat) (hpver : pver = none ∨ pver = some 4) (fl : Nat) :
+    let txt := ['.'].intercalate (ds.map dec)
+    let a := quadVal (ds.map (fun d : Nat => (d : Int)))
+    let c := classOf (ds.headD 0)
+    ipNetwork be (.str txt) true pver fl = .ok ⟨4, stored 4 fl a c, c⟩ ∧
+    ipNetwork be (.str txt) false pver fl = .ok ⟨4, a, 32⟩ ∧
+    ∀ p i, p ≤ 32 → ipNetwork be (.str (txt ++ '/' :: dec p)) i pver fl = .ok ⟨4, stored 4 fl a p, p⟩ := by
+  intro txt a c
+  obtain ⟨h1, h2, h3⟩ := partial_forms be _ _ (octets_dec ds hne hlen hd) pver hpver fl
+  have hc : c = classOf ((ds.map (fun d : Nat => (d : Int))).headD 0).toNat := by
+    cases ds with
+    | nil => exact absurd rfl hne
+    | cons d _ => simp [c]
+  refine ⟨?_, h2, ?_⟩
+  · rw [hc]; exact h3
+  · intro p i hp
+    exact h1 (dec p) p i (C03L.slash_not_in_dec p) (resolve_dec be 4 p) hp
+
+example : quadVal ([192, 168].map (fun d : Nat => (d : Int))) = 0xC0A80000 ∧ classOf ([192, 168].headD 0) = 24 := by decide
+
+/-- **A bare address, every flags and implicit_prefix value.**  implicit_prefix=False: the full
+    width (host bits there are none to clear).  implicit_prefix=True: an IPv6 text still gets 128;
+    an IPv4 dotted quad gets the class prefix of its first octet, the value kept (host bits
+    cleared under NOHOST).  An IPAddress copy gets the full width. -/
+theorem bare_all (be : Backend) (ver : Nat) (hver : VerOK ver) (v : Nat) (hv : v < 2 ^ width ver)
+    (pver : Option Nat) (hpver : pver = none ∨ pver = some ver) (fl : Nat) :
+    ipNetwork be (.str (intToStr be ver v)) false pver fl = .ok ⟨ver, v, width ver⟩ ∧
+    (ver = 6 → ipNetwork be (.str (intToStr be ver v)) true pver fl = .ok ⟨6, v, 128⟩) ∧
+    (ver = 4 → ipNetwork be (.str (intToStr be ver v)) true pver fl =
+      .ok ⟨4, stored 4 fl v (classOf (v / 16777216)), classOf (v / 16777216)⟩) ∧
+    ∀ i, ipNetwork be (.copyAddr ⟨ver, v⟩) i pver fl = .ok ⟨ver, v, width ver⟩ := by
+  have hfalse : ipNetwork be (.str (intToStr be ver v)) false pver fl = .ok ⟨ver, v, width ver⟩ := by
+    apply net_of_parse be ver hver _ _ _ _ _ pver hpver
+    · intro h6; subst h6
+      have := parse4_v6text be v hv none (by intro t ht; cases ht) fl
+      simpa using this
+    · rw [parse_bare be ver hver v hv, applyNohost_ok ver hver fl v _ (Nat.le_refl _)]
+      have := stored_full ver fl v hv
+      unfold stored at this
+      rw [this]
+  refine ⟨hfalse, ?_, ?_, fun _ => rfl⟩
+  · intro h6; subst h6
+    rw [implicit_ignored_colon be _ (List.contains_iff_mem.mp (addr6_colon be v hv)) pver fl]
+    exact hfalse
+  · intro h4; subst h4
+    have hw : width 4 = 32 := rfl
+    rw [hw] at hv
+    obtain ⟨h0, h1, h2, h3⟩ := octs_lt v hv
+    have := (classful_canonical be [v / 16777216, v / 65536 % 256, v / 256 % 256, v % 256] (by simp) (by simp)
+      (by intro d hd; simp at hd; rcases hd with e | e | e | e <;> subst e <;> assumption) pver hpver fl).1
+    have htxt : ['.'].intercalate ([v / 16777216, v / 65536 % 256, v / 256 % 256, v % 256].map dec) = intToStr be 4 v := by
+      show _ = ntoa v
+      rw [ntoa_eq]; rfl
+    have hq : quadVal ([v / 16777216, v / 65536 % 256, v / 256 % 256, v % 256].map (fun d : Nat => (d : Int))) = v := by
+      simp only [quadVal, List.map_cons, List.map_nil, List.getD_cons_zero, List.getD_cons_succ, Int.toNat_natCast]
+      exact octs_sum v
+    rw [htxt, hq] at this
+    exact this
+
+example : classOf (0x0A010203 / 16777216) = 8 ∧ stored 4 NOHOST 0x0A010203 8 = 0x0A000000 := by decide
+
+
+/-! ### rejections, for an arbitrary address part -/
+
+/-- whatever the string branch does not accept is AddrFormatError -/
+theorem core_not_ok (be : Backend) (ver : Nat) (hver : VerOK ver) (val1 : List Char) (val2 : Option (List Char)) (fl : Nat)
+    (h1 : val1.contains '/' = false) (hno : ∀ t, val2 = some t → t.contains '/' = false)
+    (h : ∀ v p, parseStrCore be ver val1 val2 fl ≠ .ok (v, p)) :
+    parseStrCore be ver val1 val2 fl = .error .addrFormat := by
+  cases hp : parseStrCore be ver val1 val2 fl with
+  | ok r => obtain ⟨v, p⟩ := r; exact absurd hp (h v p)
+  | error e => rw [core_err be ver hver val1 val2 fl e h1 hno hp]
+
+/-- a numeral prefix outside `0..width` -/
+theorem parse_reject_numeral (be : Backend) (ver : Nat) (hver : VerOK ver) (val1 T : List Char) (q : Int)
+    (h1 : val1.contains '/' = false) (hq : Py.pyInt 10 T = some q) (hr : ¬ (0 ≤ q ∧ q ≤ (width ver : Int))) (fl : Nat) :
+    parseIpNetwork be ver (.str (val1 ++ '/' :: T)) false fl = .error .addrFormat := by
+  have hT : T.contains '/' = false := contains_false_of_not_mem (pyInt_some_clean T q hq).2.2
+  rw [parse_split be ver val1 T fl h1 hT]
+  apply core_not_ok be ver hver val1 (some T) fl h1 (by intro t ht; cases ht; exact hT)
+  intro v p hp
+  obtain ⟨a, q', _, hpp, hq', _, _⟩ := (parseStrCore_iff be ver hver val1 (some T) fl h1 v p).mp hp
+  rcases hpp with e | ⟨m, p', hip, _, _, _⟩
+  · rw [hq] at e
+    simp only [Option.some.injEq] at e
+    omega
+  · rw [strict_pyInt_none be ver hver T _ hip] at hq; cases hq
+
+/-- a text without ':' is no IPv6 network, whatever follows the '/' -/
+theorem parse6_reject_nocolon (be : Backend) (val1 : List Char) (val2 : Option (List Char)) (h1 : val1.contains '/' = false)
+    (hc : ':' ∉ val1) (fl : Nat) : parseStrCore be 6 val1 val2 fl = .error .addrFormat := by
+  have h64 : ¬ ((6 : Nat) = 4) := by decide
+  rw [parseStrCore_eq]
+  unfold addrOf
+  rw [strict6_nocolon be val1 h1 hc]
+  simp only [h64, if_false]
+
+/-- lifting: both `parse_ip_network` calls fail, or the one for the explicit version does -/
+theorem net_reject_of_parse (be : Backend) (s : List Char) (i : Bool) (fl : Nat) (pver : Option Nat)
+    (h : ∀ ver, (pver = none ∧ VerOK ver) ∨ pver = some ver → VerOK ver → parseIpNetwork be ver (.str s) i fl = .error .addrFormat)
+    (hpver : pver = none ∨ pver = some 4 ∨ pver = some 6) :
+    ipNetwork be (.str s) i pver fl = .error .addrFormat := by
+  rcases hpver with e | e | e <;> subst e
+  · rw [ipNetwork_str_none, h 4 (Or.inl ⟨rfl, Or.inl rfl⟩) (Or.inl rfl)]
+    simp only
+    rw [h 6 (Or.inl ⟨rfl, Or.inr rfl⟩) (Or.inr rfl)]
+    rfl
+  · rw [ipNetwork_str_some be s i 4 (Or.inl rfl), h 4 (Or.inr rfl) (Or.inl rfl)]; rfl
+  · rw [ipNetwork_str_some be s i 6 (Or.inr rfl), h 6 (Or.inr rfl) (Or.inr rfl)]; rfl
+
+/-- **A numeral prefix out of range is refused, whatever the address part.**  `T` is any text
+    `int()` reads as `q` ("33", "-1", "+200", " 129", …), `val1` any '/'-free text at all;
+    implicit_prefix False or True, any flags.  With version `ver`: `q ∉ 0..width` is
+    AddrFormatError.  Without a version: `q ∉ 0..128` is AddrFormatError, and so is `q ∉ 0..32`
+    when the address part has no ':' (it cannot be IPv6). -/
+theorem rejects_numeral (be : Backend) (val1 T : List Char) (q : Int) (h1 : val1.contains '/' = false)
+    (hq : Py.pyInt 10 T = some q) (i : Bool) (fl : Nat) :
+    (∀ ver, VerOK ver → ¬ (0 ≤ q ∧ q ≤ (width ver : Int)) →
+      ipNetwork be (.str (val1 ++ '/' :: T)) i (some ver) fl = .error .addrFormat) ∧
+    (¬ (0 ≤ q ∧ q ≤ 128) → ipNetwork be (.str (val1 ++ '/' :: T)) i none fl = .error .addrFormat) ∧
+    (':' ∉ val1 → ¬ (0 ≤ q ∧ q ≤ 32) → ipNetwork be (.str (val1 ++ '/' :: T)) i none fl = .error .addrFormat) := by
+  have hT : T.contains '/' = false := contains_false_of_not_mem (pyInt_some_clean T q hq).2.2
+  have w4 : (width 4 : Int) = 32 := rfl
+  have w6 : (width 6 : Int) = 128 := rfl
+  have red : ∀ pver, ipNetwork be (.str (val1 ++ '/' :: T)) i pver fl = ipNetwork be (.str (val1 ++ '/' :: T)) false pver fl := by
+    intro pver
+    cases i with
+    | false => rfl
+    | true => exact explicit_prefix_wins be _ (by simp) pver fl
+  refine ⟨?_, ?_, ?_⟩
+  · intro ver hver hr
+    rw [red, ipNetwork_str_some be _ false ver hver, parse_reject_numeral be ver hver val1 T q h1 hq hr]; rfl
+  · intro hr
+    rw [red]
+    apply net_reject_of_parse be _ false fl none _ (Or.inl rfl)
+    intro ver _ hver
+    apply parse_reject_numeral be ver hver val1 T q h1 hq
+    rcases hver with e | e <;> subst e
+    · rw [w4]; omega
+    · rw [w6]; exact hr
+  · intro hc hr
+    rw [red]
+    apply net_reject_of_parse be _ false fl none _ (Or.inl rfl)
+    intro ver _ hver
+    rcases hver with e | e <;> subst e
+    · exact parse_reject_numeral be 4 (Or.inl rfl) val1 T q h1 hq (by rw [w4]; exact hr) fl
+    · rw [parse_split be 6 val1 T fl h1 hT]
+      exact parse6_reject_nocolon be val1 (some T) h1 hc fl
+
+/-- **Negative and oversized decimal prefixes**: any text + '/' + a minus sign + the numeral of `n ≥ 1`, and
+    `'<anything>/q'` with `q > 128` are AddrFormatError for version None, 4 and 6; `q > width`
+    for that explicit version. -/
+theorem rejects_decimal_prefix (be : Backend) (val1 : List Char) (h1 : val1.contains '/' = false)
+    (pver : Option Nat) (hpver : pver = none ∨ pver = some 4 ∨ pver = some 6) (i : Bool) (fl : Nat) :
+    (∀ n, 1 ≤ n → ipNetwork be (.str (val1 ++ '/' :: '-' :: dec n)) i pver fl = .error .addrFormat) ∧
+    (∀ q, q > 128 → ipNetwork be (.str (val1 ++ '/' :: dec q)) i pver fl = .error .addrFormat) ∧
+    (∀ ver q, VerOK ver → q > width ver → ipNetwork be (.str (val1 ++ '/' :: dec q)) i (some ver) fl = .error .addrFormat) := by
+  have w4 : (width 4 : Int) = 32 := rfl
+  have w6 : (width 6 : Int) = 128 := rfl
+  refine ⟨?_, ?_, ?_⟩
+  · intro n hn
+    obtain ⟨r1, r2, _⟩ := rejects_numeral be val1 ('-' :: dec n) (-(n : Int)) h1 (pyInt_neg_dec n) i fl
+    rcases hpver with e | e | e <;> subst e
+    · exact r2 (by omega)
+    · exact r1 4 (Or.inl rfl) (by omega)
+    · exact r1 6 (Or.inr rfl) (by omega)
+  · intro q hq
+    obtain ⟨r1, r2, _⟩ := rejects_numeral be val1 (dec q) (q : Int) h1 (pyInt_dec q) i fl
+    rcases hpver with e | e | e <;> subst e
+    · exact r2 (by omega)
+    · exact r1 4 (Or.inl rfl) (by rw [w4]; omega)
+    · exact r1 6 (Or.inr rfl) (by rw [w6]; omega)
+  · intro ver q hver hq
+    exact (rejects_numeral be val1 (dec q) (q : Int) h1 (pyInt_dec q) i fl).1 ver hver (by omega)
+
+example : Py.pyInt 10 "-1".toList = some (-1) ∧ Py.pyInt 10 " +200".toList = some 200 := by decide
+
+/-- no family reads the text of a non-contiguous mask as a prefix part -/
+theorem mask_text_no_prefix (be : Backend) (ver : Nat) (hver : VerOK ver) (m : Nat) (hm : m < 2 ^ width ver)
+    (hn : isNetmask (width ver) m = false) (hh : isHostmask m = false) (ver' : Nat) (hver' : VerOK ver') (q : Int) :
+    ¬ PrefixPart be ver' (some (intToStr be ver m)) q := by
+  intro hpp
+  rcases hpp with e | ⟨m', p, hip, hp, _, hmm⟩
+  · rw [pyInt_addr be ver hver m hm] at e; cases e
+  · by_cases hvv : ver' = ver
+    · subst hvv
+      rw [addr_rt be ver' hver m hm] at hip
+      simp only [Except.ok.injEq, Addr.mk.injEq, true_and] at hip
+      subst hip
+      obtain ⟨_, _, hisn, hish, _⟩ := mask_facts ver' hver p hp
+      rcases hmm with e | ⟨e, _, _⟩
+      · rw [e, hisn] at hn; cases hn
+      · rw [e, hish] at hh; cases hh
+    · have hx : ipAddress be (intToStr be ver m) (some ver') INET_PTON = .error .addrFormat := by
+        rcases hver with e | e <;> rcases hver' with e' | e' <;> subst e <;> subst e'
+        · exact absurd rfl hvv
+        · exact (C01.no_cross_family be INET_PTON).1 m hm
+        · exact (C01.no_cross_family be INET_PTON).2 .compact m hm
+        · exact absurd rfl hvv
+      rw [hx] at hip; cases hip
+
+/-- **A non-contiguous mask is refused, whatever the address part**: the text of a mask value
+    that is neither a netmask nor a hostmask, after any '/'-free text, with version None or the
+    mask's family, implicit_prefix False or True, any flags. -/
+theorem rejects_bad_mask (be : Backend) (ver : Nat) (hver : VerOK ver) (val1 : List Char) (h1 : val1.contains '/' = false)
+    (m : Nat) (hm : m < 2 ^ width ver) (hn : isNetmask (width ver) m = false) (hh : isHostmask m = false)
+    (pver : Option Nat) (hpver : pver = none ∨ pver = some 4 ∨ pver = some 6) (i : Bool) (fl : Nat) :
+    ipNetwork be (.str (val1 ++ '/' :: intToStr be ver m)) i pver fl = .error .addrFormat := by
+  have hT := addr_noslash be ver hver m hm
+  have red : ipNetwork be (.str (val1 ++ '/' :: intToStr be ver m)) i pver fl =
+      ipNetwork be (.str (val1 ++ '/' :: intToStr be ver m)) false pver fl := by
+    cases i with
+    | false => rfl
+    | true => exact explicit_prefix_wins be _ (by simp) pver fl
+  rw [red]
+  apply net_reject_of_parse be _ false fl pver _ hpver
+  intro ver' _ hver'
+  rw [parse_split be ver' val1 _ fl h1 hT]
+  apply core_not_ok be ver' hver' val1 _ fl h1 (by intro t ht; cases ht; exact hT)
+  intro v p hp
+  obtain ⟨a, q', _, hpp, _, _, _⟩ := (parseStrCore_iff be ver' hver' val1 _ fl h1 v p).mp hp
+  exact mask_text_no_prefix be ver hver m hm hn hh ver' hver' _ hpp
+
+example : isNetmask 32 0xff00ff00 = false ∧ isHostmask 0xff00ff00 = false := by decide
+
 end NV.C03
